@@ -88,6 +88,27 @@ def run(ck):
 
     verifier(ck, B + "range_proof::verify_efficient", B + "range_proof::prove", "range", r"inner_product_proof::verify_inner_product_with_scalars$", 7, skip_params=(1,))
     verifier(ck, B + "set_membership_proof::verify", B + "set_membership_proof::prove", "smp", r"inner_product_proof::verify_inner_product_with_scalars$", 7, skip_params=(1,))
+    # the prover's indicator vector has EXACTLY one 1: in a_L_a_R the bit is set - and the "found" flag raised - only while the
+    # flag is still false. The set is padded to a power of two by repeating its last element, so without that guard a proof for
+    # the last element of a padded set carries several 1s and the verifier (rightly) refuses it: a true statement is not provable
+    af = getfn(ck, "rs", CB, B + "set_membership_proof::a_L_a_R")
+    if af:
+        flags = {}
+        for bi in sorted(af.reachable()):
+            for st in af.stmts(bi):
+                rv = st.get("rv", {})
+                k = op_const(rv.get("a")) if rv.get("k") == "use" else None
+                if k is not None and k.get("ty") == "bool" and "lhs" in st and not st["lhs"][1]:
+                    flags.setdefault(st["lhs"][0], {}).setdefault(const_int(k), []).append(bi)
+        raised = [(l, b1) for l, d in flags.items() if 0 in d and 1 in d for b1 in d[1] if any(af.dominates(b0, b1) for b0 in d[0]) and any(b1 in lp for lp in natural_loops(af))]
+        okf = False
+        for (l, b1) in raised:
+            for (kind, names, val) in rules.conditions_at(af, b1):
+                if kind == "bool" and names <= frozenset({"lit0", "lit1"}) and val is False:
+                    okf = True
+        ck.ob("DOM", af.path, "indicator-has-a-single-one", bool(raised) and okf,
+              "the indicator bit is set only while the found flag is still false" if raised and okf else
+              "the indicator bit is set for every position equal to the value (no test of the found flag on that path): with the set padded by repeating its last element the proof for that element has several 1s and does not verify", af.loc(raised[0][1]) if raised else af.loc())
     verifier(ck, B + "set_non_membership_proof::verify", B + "set_non_membership_proof::prove", "snmp", r"inner_product_proof::verify_inner_product_with_scalars$", 7, skip_params=(1,))
 
     f = getfn(ck, "rs", CB, B + "range_proof::verify_efficient")
